@@ -55,9 +55,10 @@ type chanInfo struct {
 }
 
 type recorder struct {
-	chans []*chanInfo
-	byID  [2]map[uint32]*chanInfo
-	bad   []string // harness-level inconsistencies (infrastructure, not verdicts)
+	onRecvData func(ep int) // optional: called (lock held) when endpoint ep dequeues channel data
+	chans      []*chanInfo
+	byID       [2]map[uint32]*chanInfo
+	bad        []string // harness-level inconsistencies (infrastructure, not verdicts)
 }
 
 func newRecorder() *recorder {
@@ -181,6 +182,9 @@ func (r *recorder) mon(ep int, send bool, p []byte) {
 				ci.minWinObs[d] = ci.modelWin[d]
 			}
 		} else {
+			if r.onRecvData != nil {
+				r.onRecvData(ep)
+			}
 			ci := r.byID[ep][rid]
 			if ci == nil {
 				return
@@ -289,6 +293,9 @@ func writer(rs *results, pair *c35conn.Pair, sd *side, ch ssh.Channel, code uint
 	off := 0
 	buf := make([]byte, 0, 200<<10)
 	for _, sz := range sizes {
+		if sz > cap(buf) {
+			buf = make([]byte, 0, sz)
+		}
 		b := buf[:sz]
 		fill(b, sl, off)
 		n, err := w.Write(b)
@@ -906,6 +913,128 @@ func runRawPeer(rs *results, pl rawPlan) {
 	finish(rs, rec, fmt.Sprintf("raw-peer peerOpens=%v win=%d maxpkt=%d gated=%v code2=%d", pl.PeerOpens, pl.Win, pl.MaxPkt, pl.Gated, pl.Code2), pl)
 }
 
+// ---------------------------------------------------------------- scenario 3: adjust delivered -> peer data handled -> local continuation
+
+type heldPlan struct {
+	Seed  int64
+	Dir   int // sending endpoint of the data direction (the other endpoint is the delayed reader)
+	Extra int // bytes beyond the first full window
+	Holds int // how many window adjusts are held after delivery
+}
+
+// runHeldAdjust exhausts the receiver's 2 MiB window with one blocked Write while the reader is delayed,
+// then lets the reader run with a write gate on the RECEIVER's endpoint: the goroutine that wrote a
+// CHANNEL_WINDOW_ADJUST is held right after the packet has been queued for the peer.  The sender reacts
+// (window.add, reserve, CHANNEL_DATA), the receiver's mux loop handles that data while the reader has
+// not yet continued past writePacket, and only then is the reader released.
+func runHeldAdjust(rs *results, pl heldPlan) {
+	rng := rand.New(rand.NewSource(pl.Seed))
+	rec := newRecorder()
+	pair := c35conn.NewPair(rec.mon)
+	var tmu sync.Mutex
+	tearing := false
+	A := ssh.VerifMuxNew(pair.Ends[0])
+	B := ssh.VerifMuxNew(pair.Ends[1])
+	go watchMux(rs, A, "A", &tearing, &tmu)
+	go watchMux(rs, B, "B", &tearing, &tmu)
+	accepted := make(chan ssh.Channel, 4)
+	go acceptLoop(B, accepted)
+	go acceptLoop(A, make(chan ssh.Channel, 4))
+	go ssh.DiscardRequests(A.IncomingRequests())
+	go ssh.DiscardRequests(B.IncomingRequests())
+	chA, reqs, err := A.OpenChannel("verif", nil)
+	if err != nil {
+		rs.violation("open-failed", "OpenChannel between two real muxes failed", fmt.Sprint(err))
+		A.Close()
+		B.Close()
+		return
+	}
+	go ssh.DiscardRequests(reqs)
+	chB := <-accepted
+	var ci *chanInfo
+	pair.Locked(func() { ci = rec.byID[0][localID(chA)] })
+	ends := [2]ssh.Channel{chA, chB}
+	d := pl.Dir
+	recvEp := 1 - d
+	sd := &side{ci: ci, d: d, sendCh: ends[d], recvCh: ends[1-d], gate: make(chan struct{})}
+	total := (2 << 20) + pl.Extra
+	sd.expected[0] = total
+	var wgW, wgR sync.WaitGroup
+	sd.addPending(1)
+	wgW.Add(1)
+	go writer(rs, pair, sd, sd.sendCh, 0, []int{total}, rng.Int63(), &wgW)
+	wgR.Add(1)
+	go reader(rs, pair, sd, sd.recvCh, 0, total, rng.Int63(), &wgR)
+	quiesce() // the sender has used the whole window and sleeps in reserve; nothing has been read
+	snapshot(pair, sd, "gated")
+
+	// The gate: the writer of a window adjust on the receiver's endpoint is held after delivery and released
+	// when the receiver's loop dequeues the peer's responding data.  With one P the Go scheduler keeps the
+	// loop running until it blocks, so it handles that data before the released writer continues; whether
+	// that really was the order is read off the conn: the writer has not resumed when the loop comes back.
+	oldProcs := runtime.GOMAXPROCS(1)
+	defer runtime.GOMAXPROCS(oldProcs)
+	holdsLeft := pl.Holds
+	schedules := 0
+	held, sawData := false, false
+	armed := true // the next adjust is held only after the loop came back from the previous held schedule
+	pair.Locked(func() {
+		pair.AfterWrite = func(ep int, p []byte) bool {
+			if ep == recvEp && p[0] == 93 && holdsLeft > 0 && armed {
+				holdsLeft--
+				held, armed = true, false
+				return true
+			}
+			return false
+		}
+		rec.onRecvData = func(ep int) {
+			if ep == recvEp && held && !sawData {
+				sawData = true
+				pair.ReleaseLocked()
+			}
+		}
+		pair.ReadHook = func(ep int, closing bool) {
+			// the receiver's loop comes back for the next packet (or exits): what it dequeued before is handled
+			if ep == recvEp && sawData {
+				if pair.AfterHeldLocked() > 0 {
+					schedules++ // ... and the adjust writer has not continued yet
+				}
+				sawData, held, armed = false, false, true
+			}
+		}
+	})
+	close(sd.gate)
+	sd.open = true
+	for i := 0; i < 1000; i++ {
+		quiesce()
+		if pair.AfterHeld() == 0 {
+			break
+		}
+		pair.Locked(func() { held, sawData, armed = false, false, true })
+		pair.Release() // the peer had nothing to send in response to this adjust
+	}
+	pair.Locked(func() { pair.AfterWrite = nil; pair.ReadHook = nil; rec.onRecvData = nil })
+	pair.Release()
+	quiesce()
+	snapshot(pair, sd, "final")
+	if p := sd.getPending(); p > 0 {
+		rs.violation("writer-stuck", "every goroutine is blocked, the peer has read everything it was sent, and a Write has not returned",
+			ev{"chan": ci.idx, "dir": d, "pendingWriters": p, "plan": pl})
+	}
+	if ci.readOff[d][0] != total {
+		rs.violation("bytes-missing", "the reader did not receive all bytes written to the stream",
+			ev{"chan": ci.idx, "dir": d, "read": ci.readOff[d][0], "written": total, "plan": pl})
+	}
+	tmu.Lock()
+	tearing = true
+	tmu.Unlock()
+	A.Close()
+	B.Close()
+	quiesce()
+	rs.stat("held_after_adjust_schedules", schedules)
+	finish(rs, rec, fmt.Sprintf("held-adjust dir=%d holds=%d", pl.Dir, pl.Holds), pl)
+}
+
 // ---------------------------------------------------------------- test entry
 
 func TestRecord(t *testing.T) {
@@ -947,6 +1076,14 @@ func TestRecord(t *testing.T) {
 		pl := realPlan{Seed: rng.Int63(), Chans: 1 + rng.Intn(3), Big: i%2 == 0, Gated: i%4 < 2 || rng.Intn(2) == 0,
 			Code2: code2s[rng.Intn(len(code2s))], MaxWrite: 200000}
 		synctest.Test(t, func(t *testing.T) { runRealPair(rs, pl) })
+	}
+	nHeld := 2
+	if v := os.Getenv("VERIF_C35_HELD"); v != "" {
+		fmt.Sscan(v, &nHeld)
+	}
+	for i := 0; i < nHeld; i++ {
+		pl := heldPlan{Seed: rng.Int63(), Dir: i % 2, Extra: 100000 + rng.Intn(400000), Holds: 2 + rng.Intn(3)}
+		synctest.Test(t, func(t *testing.T) { runHeldAdjust(rs, pl) })
 	}
 	for i := 0; i < nRaw; i++ {
 		pl := rawPlan{Seed: rng.Int63(), PeerOpens: rng.Intn(2) == 0, MaxPkt: 9 + uint32(rng.Intn(56)), Code2: code2s[rng.Intn(len(code2s))],
